@@ -26,7 +26,7 @@ CLAIMS = {
         'note': 'Trusted: clang 14 CFG, tools/grfacts, rules/ordint.py (the abstract interpreter; graphite2::Vector is modelled natively as a list with '
                 'index iterators and a storage generation), rules/c17.py.  Assumes finite non-NaN floats and a well-formed [_pos,_posm] (C17\'s own '
                 'precondition).  An expression kind the interpreter does not model is exit 2.  Of the limit-rectangle arithmetic of initSlot only the pairing of sides per diagonal axis is decided (linear forms, round 7); the '
-                'octabox geometry of mergeSlot is not decided (seeded changes C17-3, C17-12 are recorded misses).',
+                'octabox geometry of mergeSlot is not decided (seeded change C17-12 is the recorded miss; C17-3 is decided by the argument rule LIMITARGS).',
         'technique': 'abstract interpretation of the exported CFGs over the order-type domain (finite set of weak orderings of interval end points, bounds and arguments; bounded list length) + who-may-write + dominance rule',
         'ref': 'DESIGN.md section 6, C17 and section 13.7',
     },
